@@ -6,12 +6,14 @@ import z3
 from z3 import Not, And
 
 
-def check_one(hyps, goal, background, timeout_ms=20000, want_model=False):
+def check_one(hyps, goal, background, timeout_ms=20000, want_model=False, quick=False):
     t0 = time.time()
     verdict, model, why = 'unknown', None, ''
     # most obligations are e-matching proofs: MBQI off first (fast), then the default, then another seed
     plan = (({'smt.mbqi': False}, max(timeout_ms // 4, 2000)), ({}, timeout_ms // 2),
             ({'smt.mbqi': False, 'smt.random_seed': 7, 'smt.arith.solver': 2}, timeout_ms))
+    if quick:
+        plan = (({'smt.mbqi': False}, max(timeout_ms // 4, 2000)),)
     for cfg, tmo in plan:
         s = z3.Solver()
         s.set('timeout', tmo)
